@@ -474,8 +474,9 @@ def _gen_shape(rng, maxrank=2):
 
 
 def _bool_tensor(rng, ctx):
-    t = gen_tensor(rng, ctx, 2)
-    return t, set(n for n, _ in t[1])
+    # a genuinely boolean tensor (numpy bool data): comparison of a real tensor with a constant
+    t = gen_tensor(rng, ctx, "real")
+    return ("cmp", rng.choice(["gt", "ge", "eq"]), t, ("num", float(rng.choice([0, 1])), "real")), set(n for n, _ in t[1])
 
 
 def gen_ext(rng, ctx, depth, kind="real", opts=None):
